@@ -298,7 +298,7 @@ def build():
                       'added to /repo (the only commits are the fix: commits listed in source_commits)',
             'baseline_off_cmd': 'cd /repo && /venv/bin/python -m pytest -ra -q -p no:cacheprovider --timeout=900 '
                                 '--continue-on-collection-errors',
-            'source_commits': ['e5f1071', '2eb0d72', '0fe7c83', '5b2856e'],
+            'source_commits': ['e5f1071', '2eb0d72', '0fe7c83', '5b2856e', 'bad9c4b'],
             'add_only': True,
         },
         'engines': [{
